@@ -103,6 +103,8 @@ def heights(G):
                 v = 1 + max([h[f["t"] - 1] for f in n["fields"]], default=0)
             elif e == "union":
                 v = 1 + min(h[k - 1] for k in n["variants"])
+            elif e == "enum" and not n.get("symbols"):
+                v = INF                 # an enum without symbols has no value
             else:
                 v = 0
             v = min(v, INF)
@@ -153,10 +155,10 @@ def random_value(rng, G, key, depth, size=3):
         scale = n["scale"] if e != "bigdecimal" else rng.choice([0, 0, 1, 2, 5, 28])
         return {"t": "dec", "v": be16(x), "s": scale}
     if e == "array":
-        cnt = 0 if depth <= 0 else rng.choice([0, 1, 1, 2, 3, size, 2 * size])
+        cnt = 0 if depth <= 0 or heights(G)[n["items"] - 1] >= 10 ** 9 else rng.choice([0, 1, 1, 2, 3, size, 2 * size])
         return {"t": "arr", "es": [random_value(rng, G, n["items"], depth - 1, size) for _ in range(cnt)]}
     if e == "map":
-        cnt = 0 if depth <= 0 else rng.choice([0, 1, 2, size])
+        cnt = 0 if depth <= 0 or heights(G)[n["values"] - 1] >= 10 ** 9 else rng.choice([0, 1, 2, size])
         keys = []
         while len(keys) < cnt:
             k = rand_text(rng, 4)
